@@ -20,9 +20,15 @@ for d in sorted(glob.glob(root + '/*/')):
     meta.setdefault("confirmed", "patch applies to /repo HEAD; with it `cargo test --offline -p elements` passes (85 unit + 14 doc tests); the demonstration (demo.rs, an integration test) fails with the patch and passes without (tools/confirm_seed.sh)" if agent else "patch applies to /repo HEAD and compiles; existing suite not re-run for author-written patches")
     json.dump(meta, open(d + 'meta.json', 'w'), indent=1)
     inv = (meta.get("first_violation") or "").split(' ')[0]
-    rows.append((n, meta.get("property", n.split('-')[0]), meta.get("detected"), inv))
+    status = 'yes' if meta.get("detected") else 'NO'
+    if os.path.exists(d + 'RETIRED'):
+        status = 'retired'; meta["retired"] = open(d + 'RETIRED').read().strip(); inv = ''
+        json.dump(meta, open(d + 'meta.json', 'w'), indent=1)
+    elif "detected" not in meta:
+        status = 'not run'
+    rows.append((n, meta.get("property", n.split('-')[0]), status, inv))
 with open(root + '/RESULTS.md', 'w') as f:
     f.write("| seeded change | property | detected | first violated invariant |\n|---|---|---|---|\n")
     for n, p, det, inv in rows:
-        f.write(f"| {n} | {p} | {'yes' if det else 'NO'} | {inv} |\n")
-print(len(rows), 'changes;', sum(1 for r in rows if r[2]), 'detected; not detected:', [r[0] for r in rows if not r[2]])
+        f.write(f"| {n} | {p} | {det} | {inv} |\n")
+print(len(rows), 'changes;', sum(1 for r in rows if r[2] == 'yes'), 'detected;', {k: [r[0] for r in rows if r[2] == k] for k in ('NO', 'retired', 'not run')})
